@@ -420,7 +420,12 @@ class SymReal:
     def __ge__(s, o): return s._cmp(o, lambda a, b: a >= b)
     def __eq__(s, o): return s._cmp(o, lambda a, b: a == b)
     def __ne__(s, o): return s._cmp(o, lambda a, b: a != b)
-    __hash__ = None
+
+    def __hash__(s):
+        # symbolic dictionary / cache keys: two keys land in the same bucket iff their simplified terms are identical (then
+        # __eq__ is decided as usual); semantically equal but syntactically different keys are treated as distinct (a miss).
+        # The unchanged library never hashes a coordinate; this only lets memoising variants of it run symbolically.
+        return hash(('SymReal', z3.simplify(s.t).hash()))
 
     def __bool__(s):
         return decide(s.t != 0)
